@@ -262,8 +262,11 @@ func ShieldProfile(seed int64, out *Recorder, nOps int) *Chain {
 				if fees > 0 {
 					fe = coin(fees)
 				}
-				c.Do(signer, []D{{"t": "shield.updatePool", "from": Hex(sa), "pool": pool.Id, "shield": shield, "fees": fees, "limit": lim}},
-					shieldtypes.NewMsgUpdatePool(sa, sh, shieldtypes.MixedCoins{Native: fe}, pool.Id, "", sdk.NewInt(lim)))
+				// a new description in the same message as a purchase / a new limit (drawn from its own stream: the histories
+				// of earlier versions of this generator, which corpus/histories.json names by seed, stay what they were)
+				descr := []string{"", "", "d1", "d2"}[newRng(seed*7919+int64(i)).Intn(4)]
+				c.Do(signer, []D{{"t": "shield.updatePool", "from": Hex(sa), "pool": pool.Id, "shield": shield, "fees": fees, "limit": lim, "description": descr}},
+					shieldtypes.NewMsgUpdatePool(sa, sh, shieldtypes.MixedCoins{Native: fe}, pool.Id, descr, sdk.NewInt(lim)))
 			case k < 8:
 				pool := pools[rng.Intn(len(pools))]
 				c.Do(signer, []D{{"t": "shield.pausePool", "from": Hex(sa), "pool": pool.Id}}, shieldtypes.NewMsgPausePool(sa, pool.Id))
@@ -517,6 +520,16 @@ func shieldScenario(c *Chain, rng interface{ Intn(int) int }, kind int, sc Shiel
 			if amt > 0 {
 				c.Do(other, []D{{"t": "staking.redelegate", "del": Hex(c.Accts[other].Addr), "src": Hex(c.Accts[0].Addr), "dst": Hex(c.Accts[1%cfg.NVal].Addr), "amt": amt}},
 					stakingtypes.NewMsgBeginRedelegate(c.Accts[other].Addr, val0, dst, sdk.NewInt64Coin(Bond, amt)))
+			}
+		}
+		// … and, in every other history, an undelegation of its own in the same block: two pairs in one time slice of the
+		// unbonding queue, of which the claim's lock will move only the provider's (own random stream: see updatePool)
+		if r2 := newRng(c.Cfg.Seed*31 + 7); r2.Intn(2) == 0 {
+			if del, ok := c.App.VerifStakingKeeper().GetDelegation(c.Ctx(), c.Accts[other].Addr, val0); ok {
+				if amt := del.Shares.TruncateInt64() / int64(2+r2.Intn(3)); amt > 0 {
+					c.Do(other, []D{{"t": "staking.undelegate", "del": Hex(c.Accts[other].Addr), "val": Hex(c.Accts[0].Addr), "amt": amt}},
+						stakingtypes.NewMsgUndelegate(c.Accts[other].Addr, val0, sdk.NewInt64Coin(Bond, amt)))
+				}
 			}
 		}
 		if sc.Unbonding-unit > sc.Protection {
